@@ -22,6 +22,13 @@ OP_PROPS = {
     "set.leaves": ["C15"],
     "set.has": ["C15"],
     "set.prefix": ["C15", "C14"],
+    "typ.schema": ["C11", "C12", "C13", "C14"],
+    "typ.validate": ["C13"],
+    "typ.fs": ["C14", "C13"],
+    "typ.cmp": ["C11", "C13"],
+    "typ.merge": ["C12", "C13"],
+    "typ.remove": ["C14", "C13"],
+    "typ.extract": ["C14", "C13"],
 }
 
 PROPS = {
@@ -41,6 +48,14 @@ PROPS = {
         "assumptions": [],
     },
 }
+
+for _p in ("C11", "C12", "C13", "C14"):
+    PROPS[_p] = {
+        "domains": [{"name": "typ", "n_quick": 1500, "n_thorough": 30000}],
+        "lean_modules": ["SMD.Properties." + _p],
+        "theorems": [],
+        "assumptions": ["schemas of the generated family (sgen): structs, maps, sets, keyed lists (1, 2, defaulted keys), atomic list/map/struct, recursive types, deduced type, named / inlined / relationship-overriding references"],
+    }
 
 HOOK_COMMITS = []
 NOT_APPLICABLE = {}
